@@ -91,6 +91,8 @@ type BlockSite struct {
 
 // Locks is the result of the lock analysis.
 type Locks struct {
+	syncCache map[ssa.CallInstruction][]*ssa.Function
+	hoCache   map[*ssa.Function][]hoCall
 	p         *Prog
 	Classes   map[string]bool
 	Unknown   []string                              // lock operands whose class could not be resolved
@@ -328,10 +330,227 @@ func (l *Locks) SyncCallees(c ssa.CallInstruction) []*ssa.Function {
 	if _, isGo := c.(*ssa.Go); isGo {
 		return nil
 	}
+	if r, ok := l.syncCache[c]; ok {
+		return r
+	}
+	r := l.syncCallees(c)
+	if l.syncCache == nil {
+		l.syncCache = map[ssa.CallInstruction][]*ssa.Function{}
+	}
+	l.syncCache[c] = r
+	return r
+}
+
+// hoCall is a call, inside a small higher-order helper, of a function value that the helper received as a parameter (directly or
+// through a pointer, e.g. `fn := *p; *p = nil; fn()`).
+type hoCall struct {
+	call   ssa.CallInstruction
+	param  int
+	viaPtr bool
+}
+
+// higherOrder returns the parameter calls of g when g qualifies for per-call-site resolution: it takes no lock itself and every
+// call of it in the repo is a static call (so that arguments line up with parameters). For such helpers the call graph's
+// context-insensitive answer ("anything of that function type") is replaced, at each call site, by what that site passes in.
+func (l *Locks) higherOrder(g *ssa.Function) []hoCall {
+	if r, ok := l.hoCache[g]; ok {
+		return r
+	}
+	if l.hoCache == nil {
+		l.hoCache = map[*ssa.Function][]hoCall{}
+	}
+	l.hoCache[g] = nil
+	p := l.p
+	if !p.InRepo(g) || len(g.Blocks) == 0 || g.Parent() != nil {
+		return nil
+	}
+	var out []hoCall
+	for _, c := range Calls(g) {
+		cc := c.Common()
+		if l.AsLockOp(cc) != nil {
+			return nil
+		}
+		if cc.IsInvoke() || cc.StaticCallee() != nil {
+			continue
+		}
+		if _, isB := cc.Value.(*ssa.Builtin); isB {
+			continue
+		}
+		v := cc.Value
+		viaPtr := false
+		if u, ok := v.(*ssa.UnOp); ok && u.Op == token.MUL {
+			v, viaPtr = u.X, true
+		}
+		pa, ok := v.(*ssa.Parameter)
+		if !ok || pa.Parent() != g {
+			return nil // some other dynamic call: leave the helper to the ordinary treatment
+		}
+		for i, q := range g.Params {
+			if q == pa {
+				out = append(out, hoCall{c, i, viaPtr})
+			}
+		}
+	}
+	if len(out) == 0 {
+		return nil
+	}
+	sites := p.CallSitesOf(g)
+	if len(sites) == 0 {
+		return nil
+	}
+	for _, s := range sites {
+		if s.Ins.(ssa.CallInstruction).Common().StaticCallee() != g {
+			return nil
+		}
+	}
+	l.hoCache[g] = out
+	return out
+}
+
+// funcTargets resolves a function-valued argument (or a pointer to a function-valued location) to the repo functions it can
+// denote; ok is false when some origin is not a closure / function reference.
+func (l *Locks) funcTargets(arg ssa.Value, viaPtr bool) (out []*ssa.Function, ok bool) {
+	p := l.p
+	var vals []ssa.Value
+	if viaPtr {
+		switch a := arg.(type) {
+		case *ssa.FieldAddr:
+			t, f, _, okF := FieldOf(a)
+			if !okF {
+				return nil, false
+			}
+			for _, st := range p.FieldStores(t, f) {
+				if st.Val == nil {
+					// the field's address is handed to a callee: what that callee stores through the pointer
+					more, okE := p.escapedStores(st.Ins)
+					if !okE {
+						return nil, false
+					}
+					vals = append(vals, more...)
+					continue
+				}
+				vals = append(vals, st.Val)
+			}
+		default:
+			cell := CellRoot(arg)
+			if cell == nil {
+				return nil, false
+			}
+			for _, st := range p.CellStores(cell) {
+				vals = append(vals, st.Val)
+			}
+		}
+	} else {
+		vals = []ssa.Value{arg}
+	}
+	seen := map[*ssa.Function]bool{}
+	for _, v := range vals {
+		for _, o := range p.Origins(v, Deep) {
+			var fn *ssa.Function
+			switch x := o.(type) {
+			case *ssa.MakeClosure:
+				fn, _ = x.Fn.(*ssa.Function)
+			case *ssa.Function:
+				fn = x
+			case *ssa.Const:
+				if x.IsNil() {
+					continue
+				}
+			}
+			if fn == nil {
+				return nil, false
+			}
+			for _, g := range unwrap(p, fn) {
+				if !seen[g] {
+					seen[g] = true
+					out = append(out, g)
+				}
+			}
+		}
+	}
+	return out, true
+}
+
+// escapedStores: addr (a FieldAddr instruction) is used as an argument of static calls to repo functions only; returns the values
+// those functions store through the corresponding pointer parameter. ok is false when the pointer goes anywhere else.
+func (p *Prog) escapedStores(addr ssa.Instruction) ([]ssa.Value, bool) {
+	av, ok := addr.(ssa.Value)
+	if !ok || av.Referrers() == nil {
+		return nil, false
+	}
+	var out []ssa.Value
+	for _, r := range *av.Referrers() {
+		switch u := r.(type) {
+		case *ssa.UnOp, *ssa.DebugRef:
+		case *ssa.Store:
+			if u.Addr != av {
+				return nil, false
+			}
+		case ssa.CallInstruction:
+			g := u.Common().StaticCallee()
+			if g == nil || !p.InRepo(g) || len(g.Blocks) == 0 {
+				// sync primitives etc. are handled by their own rules; an unknown callee may store anything
+				return nil, false
+			}
+			for i, a := range u.Common().Args {
+				if a != av || i >= len(g.Params) {
+					continue
+				}
+				pa := g.Params[i]
+				if pa.Referrers() == nil {
+					continue
+				}
+				for _, pr := range *pa.Referrers() {
+					switch w := pr.(type) {
+					case *ssa.Store:
+						if w.Addr != ssa.Value(pa) {
+							return nil, false
+						}
+						out = append(out, w.Val)
+					case *ssa.UnOp, *ssa.DebugRef:
+					default:
+						return nil, false
+					}
+				}
+			}
+		default:
+			return nil, false
+		}
+	}
+	return out, true
+}
+
+func (l *Locks) syncCallees(c ssa.CallInstruction) []*ssa.Function {
 	p := l.p
 	var out []*ssa.Function
 	seen := map[*ssa.Function]bool{}
+	// a parameter call inside a higher-order helper is accounted for at the helper's call sites
+	for _, hc := range l.higherOrder(c.Parent()) {
+		if hc.call == c {
+			return nil
+		}
+	}
 	ext := false
+	for _, f := range p.Callees(c) {
+		if hos := l.higherOrder(f); len(hos) > 0 && c.Common().StaticCallee() == f {
+			for _, hc := range hos {
+				var tg []*ssa.Function
+				okT := false
+				if hc.param < len(c.Common().Args) {
+					tg, okT = l.funcTargets(c.Common().Args[hc.param], hc.viaPtr)
+				}
+				if !okT {
+					tg = p.Callees(hc.call)
+				}
+				for _, g := range tg {
+					if p.InRepo(g) && len(g.Blocks) > 0 && !seen[g] {
+						seen[g] = true
+						out = append(out, g)
+					}
+				}
+			}
+		}
+	}
 	for _, f := range p.Callees(c) {
 		if p.InRepo(f) && len(f.Blocks) > 0 {
 			if !seen[f] {
